@@ -16,7 +16,7 @@ RULE = ("Hypothesis build programs (<= 8 items per circuit, nesting <= 2, 4 qubi
         "relation has the declared type and reference and every relation-less item follows one of the deepest earlier "
         "items sharing a channel (or nothing); (2) every reported start/end/duration equals the reference model's "
         "(plain recursion over the program, |d| <= 1e-9); (3) the same two checks on apply_modifiers() against the "
-        "unrolled model, with or without a listing before unrolling; (4) the same unrolled objects are then re-read under a "
+        "unrolled model, with or without a listing before unrolling; (in half of the cases the schedule of the unfinished circuit is also read while building, before every add or before every sub-circuit add); (4) the same unrolled objects are then re-read under a "
         "second generated configuration (global override + registry values) and compared with the re-scheduled model. Non-trivial = >= 3 operations and (an explicit "
         "relation or an implicit placement with >= 2 admissible predecessors) and (nesting or a zero-length operation "
         "or a repetition); distinct = canonical JSON of (program, pre_list).")
@@ -32,6 +32,9 @@ def cfg():
                     max_total_leaves=60, p_dangling=8)
 
 
+PEEKS = ["none", "none", "every", "before_sub"]      # read all times of the circuit being filled before (these) adds
+
+
 def second_configuration():
     """A second duration configuration applied to the SAME circuit objects after they were read once."""
     from hypothesis import strategies as st
@@ -42,7 +45,8 @@ def second_configuration():
 
 def strat():
     from hypothesis import strategies as st
-    return st.fixed_dictionaries({"program": P.program_strategy(cfg()), "pre_list": st.booleans(), "second": second_configuration()})
+    return st.fixed_dictionaries({"program": P.program_strategy(cfg()), "pre_list": st.booleans(), "second": second_configuration(),
+                                  "peek": st.sampled_from(PEEKS)})
 
 
 def cfg_dense():
@@ -55,7 +59,7 @@ def cfg_dense():
 def strat_dense():
     from hypothesis import strategies as st
     return st.fixed_dictionaries({"program": P.program_strategy(cfg_dense()), "pre_list": st.sampled_from([True, True, False]),
-                                  "second": second_configuration()})
+                                  "second": second_configuration(), "peek": st.sampled_from(PEEKS)})
 
 
 def compare_times(ctx, root: M.MCirc, mapping, what: str, facts):
@@ -83,6 +87,7 @@ def compare_times(ctx, root: M.MCirc, mapping, what: str, facts):
 def body(case, ctx):
     program, pre_list = case["program"], case["pre_list"]
     case.setdefault("second", None)
+    case.setdefault("peek", "none")
     st = P.stats(program)
     g, dreg = program.get("g"), program.get("dreg", {})
     root = M.build(program)
@@ -91,14 +96,22 @@ def body(case, ctx):
                   and (st["nesting"] > 0 or st["n_zero"] > 0 or st["n_reps_gt1"] > 0))
     ctx.case(case, nontrivial=nontrivial, classes=[
         f"explicit={st['n_explicit'] > 0}", f"ties={bool(ties)}", f"nesting={st['nesting']}", f"zero={st['n_zero'] > 0}",
-        f"reps={st['n_reps_gt1'] > 0}", f"global={st['global']}", f"pre_list={pre_list}", f"reconfigured={bool(case.get('second'))}",
+        f"reps={st['n_reps_gt1'] > 0}", f"global={st['global']}", f"pre_list={pre_list}", f"reconfigured={bool(case.get('second'))}", f"peek={case['peek']}",
         f"rel_types={''.join(st['rel_types'])}"])
     facts = {"kinds": st["kinds"], "reps": st["n_reps_gt1"] > 0, "nesting": st["nesting"], "pre_list": pre_list}
     root = M.build(program)         # fresh: implicit relations are fixed by the correspondence below
     with P.global_override(g):
         b = None
+
+        def peek(decl, p, it):
+            # a user reading the schedule of the unfinished circuit
+            if case["peek"] == "every" or P.is_sub(it):
+                for o in decl.operations:
+                    o.start_time, o.end_time
+                decl.duration
+
         with ctx.lib("build"):
-            b = P.build(program)
+            b = P.build(program, peek=None if case["peek"] == "none" else peek)
         if b is None:
             return
         mapping = None
